@@ -74,6 +74,26 @@ func lateAutoJoinOnly(before, after string) bool {
 	return true
 }
 
+// joinTouchedOwnFlag: a refused PlayerJoin after which the seated-in flag of the very
+// player it names differs. Such a change is attributed to the refused call and never
+// masked as a late auto-join; flags of players the call does not name (PlayerJoin of an
+// unknown id while the auto-join callback of the others lands) are not its doing.
+func joinTouchedOwnFlag(op *sim.OpRec) bool {
+	if op.Kind != "join" {
+		return false
+	}
+	if op.Before == nil || op.After == nil {
+		return true
+	}
+	for _, id := range op.IDs {
+		b, a := sim.FindPlayer(op.Before, id), sim.FindPlayer(op.After, id)
+		if (b == nil) != (a == nil) || (b != nil && b.IsIn != a.IsIn) {
+			return true
+		}
+	}
+	return false
+}
+
 // consistency is part (i)+(ii) of the C03 oracle.
 func seatConsistency(t *pokertable.Table, sm seat_manager.SeatManager) (string, string) {
 	n := t.Meta.TableMaxSeatCount
@@ -540,7 +560,7 @@ func c03Body(c *run.Ctx) {
 			}
 			// all-or-nothing
 			after := seatView{Table: normTableJSON(s.Now()), SM: smDump(sm)}
-			if (after.Table != before.Table || after.SM != before.SM) && op.Kind != "join" && lateAutoJoinOnly(before.Table, after.Table) && lateAutoJoinOnly(before.SM, after.SM) {
+			if (after.Table != before.Table || after.SM != before.SM) && !joinTouchedOwnFlag(op) && lateAutoJoinOnly(before.Table, after.Table) && lateAutoJoinOnly(before.SM, after.SM) {
 				// the completion callback of an auto-join group that completed earlier runs on a
 				// goroutine of its own and seats every reserved player in; it landed during this
 				// (refused) operation - see DESIGN.md section 5, observations
@@ -634,7 +654,7 @@ func c03HandsBody(c *run.Ctx) {
 		}
 		s.Label(op.Class)
 		if op.Err != nil {
-			if normTableJSON(op.Before) != normTableJSON(op.After) && !(op.Kind != "join" && lateAutoJoinOnly(normTableJSON(op.Before), normTableJSON(op.After))) {
+			if normTableJSON(op.Before) != normTableJSON(op.After) && !(!joinTouchedOwnFlag(op) && lateAutoJoinOnly(normTableJSON(op.Before), normTableJSON(op.After))) {
 				c.Failf("C03.error-changed-table."+op.Class, "%s reported an error but the table changed:\nbefore %s\nafter  %s", op.String(), tableSummary(op.Before), tableSummary(op.After))
 			}
 			if len(s.Hands) > 0 {
